@@ -89,14 +89,19 @@ def payload_text(breakout, filler, n):
     if breakout == ["STARSLASH"]:
         return "zz " + b + " " + f + " /* zz"
     if breakout == ["BQ"]:
+        if filler == "field":
+            # inside a raw struct tag: end the tag, declare a field, comment out the rest of the line
+            return "zz`; Injected_%d int // zz" % n
         return "zz` + Injected_%d + `zz" % n
     if breakout == ["DQ"]:
         return "zz\" + Injected_%d + \"zz" % n
     return "zz" + b
 
 
+# model_tags: free text is also copied into struct tags when asked for (--struct-tags description / example)
 TARGETS = {"server": ["generate", "server", "--name", "verif"], "client": ["generate", "client", "--name", "verif"],
-           "cli": ["generate", "cli", "--name", "verif"]}
+           "cli": ["generate", "cli", "--name", "verif"],
+           "model_tags": ["generate", "model", "--model-package", "tagged", "--struct-tags", "json", "--struct-tags", "description", "--struct-tags", "example", "--struct-tags", "yaml"]}
 
 
 def nested_spec():
@@ -264,7 +269,7 @@ def check(run, replay=None):
     combos = []
     for s in all_sites:
         for b in breakouts:
-            fills = ["decl", "field", "method"] if b in (["NL"], ["STARSLASH"], ["CRLF", "NL"]) else ["decl"]
+            fills = ["decl", "field", "method"] if b in (["NL"], ["STARSLASH"], ["CRLF", "NL"]) else (["decl", "field"] if b == ["BQ"] else ["decl"])
             for f in fills:
                 combos.append((s, b, f))
     rnd = random.Random(run.seed)
@@ -272,7 +277,7 @@ def check(run, replay=None):
         # every site with every break-out; a declaration filler always (valid wherever a comment of a
         # file-level declaration is broken), a struct-field filler for the single line terminators and */
         # (valid where the comment of a struct field is broken); the method filler in the thorough tier
-        combos = [c for c in combos if c[2] == "decl" or (c[2] == "field" and c[1] in (["NL"], ["STARSLASH"]))]
+        combos = [c for c in combos if c[2] == "decl" or (c[2] == "field" and c[1] in (["NL"], ["STARSLASH"], ["BQ"]))]
 
     def generate(doc, tag):
         mod = run.scratch_module("lex-" + tag, modname="scratch/gen")
